@@ -207,6 +207,9 @@ def gen_cases(tier, seed):
             kw['error'] = rng.choice(['L', 'M', 'Q', 'H'])
         cases.append(common.mk(parts, tag='multi', **kw))
     cases += common.big_int_cases(rng, tier)
+    # eci=True with every spelling class of the encoding name at the capacity of a version: the 12 header bits are counted
+    # exactly when they are written (judged here by the version that is chosen / refused)
+    cases += common.eci_boundary_cases(rng, tier, versions=[1, 2, 9, 10] if tier == 'quick' else None)
     # many tiny segments around the steps of the character count indicator: the cost of every segment grows at versions
     # 10 and 27, so such a content can fit version 9 and not version 10 (26 / 27) - "fits" is not monotone in the version
     for (lo, hi) in ((9, 10), (26, 27)):
